@@ -172,7 +172,7 @@ Print Assumptions C18_comp_workers_scoped.
 
 (* non-vacuity: boot, restart reload, Stop(): the census is 0 at the end and was 2 in between *)
 Definition c18_comp_params : params :=
-  mkParams [mkSpec 0%N UntilRunDone OnSignal RWC; mkSpec 1%N NonBlocking OnSignal RWC] true true true true.
+  mkParams [mkSpec 0%N UntilRunDone OnSignal RWC; mkSpec 1%N NonBlocking OnSignal RWC] true true true true true.
 Definition c18_comp_sched : list Composite.label :=
   [LRunCall; LRunBegin; LBootLock ORun; LCb ORun (CbSome [(0, 0)]%N); LBootLaunch ORun; LToRunning;
    LKRun 0 0%N;
